@@ -1465,8 +1465,13 @@ class C14(NlpCheck):
                 'ncons': (1, 3), 'scale_prob': 0.8, 'scale_vars': 1.0, 'features': {'dae': 0.3, 'v': 0.5, 'vc': 0.5},
                 'inf_bounds_prob': 0.5, 'nrows': [1, 1, 2, 2, 3],
                 'Ns': [1, 2, 3], 'Ms': [1, 2], 'degrees': [1, 2, 3]}
-        for _ in range(n):
-            dA = G.gen_case(self.rng, prof)
+        for it_ in range(n):
+            if it_ < 3:
+                # dedicated: DAE under direct collocation with several integration steps per interval (algebraic variables at the
+                # roots of the steps after the first are separate decision variables)
+                dA = G.gen_case(self.rng, dict(prof, methods=[('dc', 'rk')], Ms=[2, 3], features={'dae': 1.0, 'v': 0.3, 'vc': 0.3}, scale_prob=1.0))
+            else:
+                dA = G.gen_case(self.rng, prof)
             dB = copy.deepcopy(dA)
             for key in ('scale_x', 'scale_u', 'scale_der', 'scale_z', 'scale_v'):
                 dB[key] = None
@@ -1501,6 +1506,11 @@ class C14(NlpCheck):
                 if name == 'X' and abs(fac - sx[row]) > 1e-12:
                     self.slice_ok["layout-is-diag-scale"] = False
                     self.violation("d(sampled state %d)/d(solver variable) = %r, declared scale %r" % (row, fac, sx[row]), {"desc": dA}, {"kind": "layout"})
+                    return
+                if name == 'Zc' and dA.get('scale_z') and abs(fac - dA['scale_z'][row]) > 1e-12:
+                    self.slice_ok["layout-is-diag-scale"] = False
+                    self.violation("d(algebraic variable %d at collocation root %d)/d(solver variable) = %r, declared scale %r" % (row, col, fac, dA['scale_z'][row]), {"desc": dA},
+                                   {"kind": "layout", "what": "algebraic"})
                     return
                 if name == 'U' and dA.get('scale_u') and abs(fac - dA['scale_u'][row]) > 1e-12:
                     self.slice_ok["layout-is-diag-scale"] = False
